@@ -85,6 +85,9 @@ def gen_world(rng, profile):
     classes["M"] = m
     mp = rel_scalars(scn, "M")
     m["blocks"] = [{"name": "k%d" % i, "stmts": g.pstmts(mp, 1, 2)} for i in range(r.randint(1, 2))]
+    if r.random() < 0.35:
+        # a block that carries the name of a block of the sub-objects: toggles by name must stay with their own object
+        m["blocks"][0]["name"] = "c0"
     root = "M"
     if r.random() < profile.get("deep", 0.4):
         t = {"base": None, "fields": [g.decl("t0", 0)],
@@ -92,7 +95,7 @@ def gen_world(rng, profile):
              "blocks": [], "pre": r.random() < 0.6, "post": r.random() < 0.6}
         classes["T"] = t
         tp = rel_scalars(scn, "T")
-        t["blocks"] = [{"name": "q0", "stmts": g.pstmts(tp, 1, 2)}]
+        t["blocks"] = [{"name": r.choice(["q0", "q0", "c0", "k0"]), "stmts": g.pstmts(tp, 1, 2)}]
         root = "T"
     scn["root"] = root
     # a list of objects in the mid or top class: elements are reached by index, take the list's randomness, carry their
@@ -102,10 +105,10 @@ def gen_world(rng, profile):
         host["olists"] = [{"name": "ol0", "cls": r.choice(leafs), "n": r.randint(1, 2), "rand": r.random() < 0.75}]
         hp = rel_scalars(scn, "M" if host is classes["M"] else root)
         host["blocks"].append({"name": "zz0", "stmts": g.pstmts([x for x in hp if "ol0" in x[0]] + hp[:2], 1, 2)})
-        if r.random() < 0.6:
+        ol = host["olists"][0]
+        ef = [f for f in W.members(scn, ol["cls"]) if f[1] == "scalar" and not f[2].get("enums")]
+        if r.random() < 0.6 and ef and hp:
             # foreach over the list of objects: element fields through the iterator and/or by index
-            ol = host["olists"][0]
-            ef = [f for f in W.members(scn, ol["cls"]) if f[1] == "scalar" and not f[2].get("enums")]
             use_it = r.random() < 0.6
             use_idx = (not use_it) or r.random() < 0.5
             body = []
